@@ -135,6 +135,8 @@ pub fn sample_steps(r: &mut Rng, ctx: &RunCtx, want: usize) -> Vec<usize> {
         if let Ok(p) = &s.post {
             if special < want / 2 && boundaries_crossed(&ctx.envs[s.ver].path, s.pre.offset.value, p.st.offset.value) >= 1 { pick[i] = true; special += 1; }
             if i > 0 && ctx.steps[i - 1].ver != s.ver { pick[i] = true; }
+            // a row that ends with a negative speed is always looked at step by step (known finding C03/2)
+            if p.st.speed.value < 0.0 { pick[i] = true; }
         } else { pick[i] = true; }
     }
     let mut cnt = pick.iter().filter(|b| **b).count();
